@@ -17,9 +17,10 @@ import tla
 import vcheck
 
 ENV = {"Track", "Untrack", "Recover", "RecoverAll", "Apply", "Fail", "Return"}
+GATED_ENV = ENV | {"HandleErr", "Finish", "Clean"}     # worker steps scheduled by the script (GatedFinish)
 
 
-def to_script(beh, sid, K, Q, cids):
+def to_script(beh, sid, K, Q, cids, gated=False):
     """behaviour (list of {action, state}) -> script dict or None"""
     states = [b["state"] for b in beh]
     steps = []
@@ -28,7 +29,7 @@ def to_script(beh, sid, K, Q, cids):
     n = len(states)
     while i < n:
         a = states[i]["act"]
-        if a.get("name") not in ENV:
+        if a.get("name") not in (GATED_ENV if gated else ENV) or (a.get("name") in ("HandleErr", "Finish", "Clean") and a.get("w", 0) > K + 1):
             i += 1
             continue
         j = i
@@ -38,7 +39,7 @@ def to_script(beh, sid, K, Q, cids):
             # the behaviour ends inside this action's internal steps (e.g. a witness that stops at its goal):
             # still perform the action, without a predicted state; the epilogue judges the outcome
             s0 = states[i]
-            steps.append({"act": a, "res": s0["lastRes"] if a["name"] not in ("Apply", "Fail", "Return") else "",
+            steps.append({"act": a, "res": s0["lastRes"] if a["name"] in ("Track", "Untrack", "Recover", "RecoverAll") else "",
                           "st": s0["st"], "ipfs": s0["ipfs"], "healthy": False, "noexp": True,
                           "proj": {"status": {}, "statusall": {}, "pending": [], "applied": [], "stable": False, "quiescent": False}})
             if s0["lastRes"] == "fullq":
@@ -59,7 +60,7 @@ def to_script(beh, sid, K, Q, cids):
         if a["name"] in ("Recover", "RecoverAll"):
             tags.add("recover")
         steps.append({
-            "act": a, "res": states[i]["lastRes"] if a["name"] not in ("Apply", "Fail", "Return") else "",
+            "act": a, "res": states[i]["lastRes"] if a["name"] in ("Track", "Untrack", "Recover", "RecoverAll") else "",
             "st": s["st"], "ipfs": s["ipfs"], "healthy": s["healthy"],
             "proj": {"status": pj["status"], "statusall": pj["statusall"],
                      "pending": sorted(pj["pending"], key=lambda c: (c["cid"], c["kind"])),
@@ -68,10 +69,14 @@ def to_script(beh, sid, K, Q, cids):
         i = j + 1 if j > i else i + 1
     if len(steps) < 2:
         return None
-    return {"id": sid, "K": K, "Q": Q, "cids": cids, "steps": steps, "tags": sorted(tags)}
+    if gated:
+        tags.add("gated-worker-steps")
+    return {"id": sid, "K": K, "Q": Q, "cids": cids, "steps": steps, "tags": sorted(tags), "gated": gated}
 
 
-SIMS = [("Tracker_sim_k1q1.cfg", 1, 1, ["c1", "c2"]),
+SIMS = [("Tracker_simg_k1q1.cfg", 1, 1, ["c1", "c2"]),
+        ("Tracker_simg_k2q1.cfg", 2, 1, ["c1", "c2"]),
+        ("Tracker_sim_k1q1.cfg", 1, 1, ["c1", "c2"]),
         ("Tracker_sim_k1q1c3.cfg", 1, 1, ["c1", "c2", "c3"]),
         ("Tracker_sim_k2q1.cfg", 2, 1, ["c1", "c2"]),
         ("Tracker_sim_k2q2.cfg", 2, 2, ["c1", "c2", "c3"])]
@@ -100,7 +105,7 @@ def pipeline(ctx, want):
         list(ex.map(sim, range(len(SIMS))))
     for k, (cfg, K, Q, cids) in enumerate(SIMS):
         for n, beh in enumerate(tla.read_behaviours(ctx.specdir(), "beh%d" % k)):
-            sc = to_script(beh, "s%d-%d" % (k, n), K, Q, cids)
+            sc = to_script(beh, "s%d-%d" % (k, n), K, Q, cids, gated="simg" in cfg)
             if sc:
                 scripts.append(sc)
     # witnesses of rare corners (TLC counterexamples of negated reachability goals, see tools/mkwitness.py)
